@@ -71,10 +71,29 @@ def main():
             meta["tests_summary"] = [l for l in out.splitlines() if "tests passed" in l or "Failed" in l or "***" in l][:6]
             meta["ran"].append("ctest --test-dir _build -j8 --timeout 3000")
             meta["tests_wall_s"] = round(time.time() - t0)
-        # demo
-        cc = "gcc -O1 -I_build/include -Iinclude %s _build/lib/librelic_s.a -o demo_bin 2>&1" % demo
-        rc1, o1 = sh(cc + " && ./demo_bin", cwd=wt, timeout=900)
-        rc0, o0 = sh(cc + " && ./demo_bin", cwd=base, timeout=900)
+        # demo: default build, or a second configuration (cmake<k>.txt), or the seeder's own script (build<k>.sh)
+        cmk = os.path.join(sdir, "out", "cmake%s.txt" % k)
+        bsh = os.path.join(sdir, "out", "build%s.sh" % k)
+        if os.path.exists(bsh):
+            shutil.copy2(demo, os.path.join(wt, "demo%s.c" % k))
+            shutil.copy2(demo, os.path.join(base, "demo%s.c" % k))
+            rc1, o1 = sh("sh %s 2>&1" % bsh, cwd=wt, timeout=3600)
+            rc0, o0 = sh("sh %s 2>&1" % bsh, cwd=base, timeout=3600)
+            meta["demo_build"] = open(bsh).read()
+        else:
+            bd = "_build"
+            if os.path.exists(cmk):
+                opts = open(cmk).read().strip().replace("\n", " ")
+                meta["demo_cmake_options"] = opts
+                bd = "_build_demo"
+                for d_ in (wt, base):
+                    rc, out = sh("cmake -G Ninja -B _build_demo -DBENCH=0 -DDOCUM=off -DTESTS=0 %s . && cmake --build _build_demo"
+                                 % opts, cwd=d_)
+                    assert rc == 0, out[-1500:]
+            cc = "gcc -O1 -I%s/include -Iinclude %s %s/lib/librelic_s.a -o demo_bin 2>&1" % (bd, demo, bd)
+            rc1, o1 = sh(cc + " && ./demo_bin", cwd=wt, timeout=900)
+            rc0, o0 = sh(cc + " && ./demo_bin", cwd=base, timeout=900)
+            sh("rm -rf _build_demo", cwd=base)
         meta["demo_rc_with_change"] = rc1
         meta["demo_rc_without_change"] = rc0
         meta["demo_output_with_change"] = o1[-600:]
@@ -106,6 +125,10 @@ def finish(meta, name, patch, demo, readme):
     shutil.copy2(patch, os.path.join(d, "patch.diff"))
     if os.path.exists(demo):
         shutil.copy2(demo, os.path.join(d, "demo.c"))
+    for extra in ("cmake%s.txt", "build%s.sh"):
+        src = os.path.join(os.path.dirname(patch), extra % name.split("-")[1])
+        if os.path.exists(src):
+            shutil.copy2(src, os.path.join(d, extra % ""))
     if os.path.exists(readme):
         shutil.copy2(readme, os.path.join(d, "README.md"))
         txt = open(readme).read()
